@@ -41,6 +41,10 @@ def build(ctx):
         n = {"name": nm, "kind": "file", "size": sizes[i % len(sizes)], "perm": rng.choice([0o644, 0o755, 0o600, 0o4755, 0o2711, 0o666, 0o000, 0o444])}
         nodes.append(n)
     nodes[0]["hardlinks"] = ["a_hl1", "a_hl2"]
+    # newline-rich contents longer than a read block whose length is not a multiple of it (line_count is read block by block)
+    nodes.append({"name": "lines40k.log", "kind": "file", "content": b"0123456\n" * 5000})
+    nodes.append({"name": "lines80k.log", "kind": "file", "content": b"0123456\n" * 10000 + b"abc"})
+    nodes.append({"name": "lines33k.log", "kind": "file", "content": b"\n" * 32768 + b"0123456789"})
     sub = [{"name": "f%d" % i, "kind": "file", "size": sizes[(i * 3) % len(sizes)]} for i in range(8)]
     sub.append({"name": "lnk", "kind": "link", "target": "f0"})
     sub.append({"name": "dangling", "kind": "link", "target": "nowhere"})
